@@ -170,6 +170,10 @@ func genC13(tier string, r *rng) {
 					}
 					enc := encodeStream(fs, server, r)
 					run(fmt.Sprintf("rdr %d ext,inter %s %d E nf st ra st nf st ra st", st, hx(enc), (rsvFirst+rsvCont)%3))
+					// SkipHeaderCheck switches off the RFC 6455 header rules, not the extension's own
+					if (rsvFirst+rsvCont+rsvCtl)%2 == 0 {
+						run(fmt.Sprintf("rdr %d skip,ext,inter %s %d E nf st ra st nf st ra st", st, hx(enc), (rsvFirst+rsvCtl)%3))
+					}
 				}
 			}
 		}
